@@ -72,6 +72,21 @@ class ModuleInfo:
             if isinstance(node, ast.Assign) and len(node.targets) == 1 and isinstance(node.targets[0], ast.Name):
                 self.globals[node.targets[0].id] = node.value
         self._scan_funcs(self.tree.body, "")
+        # classes whose body assigns integer literals (Enum-style constants): Class.NAME -> value
+        self.enums = {}
+        for node in self.tree.body:
+            if isinstance(node, ast.ClassDef):
+                vals = {}
+                for b in node.body:
+                    if isinstance(b, ast.Assign) and len(b.targets) == 1 and isinstance(b.targets[0], ast.Name):
+                        try:
+                            v = ast.literal_eval(b.value)
+                        except Exception:
+                            continue
+                        if isinstance(v, int) and not isinstance(v, bool):
+                            vals[b.targets[0].id] = v
+                if vals:
+                    self.enums[node.name] = vals
 
     def _scan_import(self, node):
         if isinstance(node, ast.Import):
@@ -565,6 +580,8 @@ class Executor:
             if name in ("same", "close") and name in self.spec_funcs():
                 pass
             return VFunc("builtin:" + name)
+        if name in getattr(self.mod, "enums", {}):
+            return VModule("enum:" + name)
         if name in self.mod.imports:
             canon = self.mod.imports[name]
             return self.canon_value(canon)
@@ -867,6 +884,10 @@ class Executor:
                             r = xr.mul(r, x)
                         return VFloat(r)
             raise Unsupported("general power", node)
+        if isinstance(op, (ast.BitOr, ast.BitAnd, ast.BitXor)) and not fl:
+            # bit operations on integers are uninterpreted functions of their operands (flags: only their own frame matters here)
+            f = z3.Function("pyvc_" + type(op).__name__.lower(), z3.IntSort(), z3.IntSort(), z3.IntSort())
+            return VInt(f(to_int(a), to_int(b)))
         raise Unsupported("binary op %s" % type(op).__name__, node)
 
     # ---- element-wise array expressions (Tier 2): arrays as lambda terms
@@ -1142,6 +1163,12 @@ class Executor:
         raise Unsupported("attribute %s of %r" % (n.attr, base), n)
 
     def module_attr(self, mod, attr, node):
+        if mod.name.startswith("enum:"):
+            vals = self.mod.enums[mod.name[5:]]
+            if attr not in vals:
+                raise Unsupported("%s.%s" % (mod.name[5:], attr), node)
+            # members of one Enum class are only compared with each other: their (distinct) integer values stand for them
+            return VInt(vals[attr])
         if mod.name.startswith("iinfo:"):
             lim = {"uint32": (0, 2 ** 32 - 1), "uint8": (0, 255), "int32": (-2 ** 31, 2 ** 31 - 1), "int64": (-2 ** 63, 2 ** 63 - 1),
                    "uint64": (0, 2 ** 64 - 1)}.get(mod.name[6:])
@@ -1908,6 +1935,29 @@ class Executor:
                 if meth == "any":
                     return VBool(z3.Exists(ks, z3.And(rng, a.select(ks))))
                 return VBool(z3.ForAll(ks, z3.Implies(rng, a.select(ks))))
+            if meth == "reshape" and a.ndim == 1 and len(args) == 1 and isinstance(args[0], VTuple) and len(args[0].items) == 2:
+                # v.reshape((-1, c)) / (r, c) of a 1-D array: row-major, out[i, j] == v[i*c + j] (a view: writes are not propagated
+                # back to v, which is fine as long as v itself is not read afterwards)
+                r_, c_ = [z3.simplify(to_int(x, n)) for x in args[0].items]
+                if not z3.is_int_value(c_) or c_.as_long() <= 0:
+                    raise Unsupported("reshape with a symbolic / non-positive column count", n)
+                cc = c_.as_long()
+                if z3.is_int_value(r_) and r_.as_long() == -1:
+                    if not spec:
+                        self.raise_if(st, a.shape[0] % cc != 0, "ValueError", n)
+                    rows = a.shape[0] / cc
+                else:
+                    rows = r_
+                    if not spec:
+                        self.raise_if(st, rows * cc != a.shape[0], "ValueError", n)
+                i, j = z3.Int(fresh_name("ri")), z3.Int(fresh_name("rj"))
+                named = fresh_array("reshaped", a.et, 2)
+                st.assume(z3.ForAll([i, j], z3.Implies(z3.And(i >= 0, j >= 0, j < cc),
+                                                       z3.Select(z3.Select(named, i), j) == a.select([i * cc + j])),
+                                    patterns=[z3.Select(z3.Select(named, i), j)]))
+                cell = new_cell("reshape")
+                st.heap[cell] = ArrData(named, [rows, z3.IntVal(cc)], a.et, a.roots, a.fresh)
+                return VRef(cell)
             if meth == "index" and len(args) == 1 and a.ndim == 1 and not kwargs:
                 # assumed Python contract: seq.index(v) is the first position holding a value equal to v (ValueError if none)
                 k, i = z3.Int(fresh_name("ik")), z3.Int(fresh_name("index"))
@@ -2291,6 +2341,20 @@ class Executor:
         idx_vals = [self.ev(e, st, spec) for e in idx_nodes]
         if len(idx_vals) == 1 and isinstance(idx_vals[0], VTuple):
             idx_vals = idx_vals[0].items
+        if len(idx_vals) == 1 and a.ndim == 2 and isinstance(v, VRef) and st.heap[v.cell].ndim == 1:
+            # a[i] = row: every element of row i is replaced
+            src = st.heap[v.cell]
+            if not spec:
+                self.oblige(st, "shape", "%s.rowlen" % self.line_tag(node), src.shape[0] == a.shape[1], node, desc="the stored row has the row length")
+            (ri,) = self.index_terms(ArrData(None, a.shape[:1], a.et), idx_vals, st, node, spec)
+            p_, q_ = z3.Int(fresh_name("rs")), z3.Int(fresh_name("rt"))
+            named = fresh_array("rowstored", a.et, 2)
+            st.assume(z3.ForAll([p_, q_], z3.Select(z3.Select(named, p_), q_) ==
+                                z3.If(p_ == ri, src.select([q_]), a.select([p_, q_])),
+                                patterns=[z3.Select(z3.Select(named, p_), q_)]))
+            self.note_write(st, base, node)
+            st.heap[base.cell] = a.with_elems(named)
+            return
         if len(idx_vals) != a.ndim:
             raise Unsupported("partial-index store", node)
         idx = self.index_terms(a, idx_vals, st, node, spec)
@@ -2437,11 +2501,11 @@ class Executor:
         return cache[key]
 
     def feasible(self, st, cond):
-        if not self.prune:
-            return True
         c = z3.simplify(cond)
         if z3.is_false(c):
             return False
+        if not self.prune:
+            return True
         if z3.is_true(c):
             return True
         # cheap syntactic check only; full feasibility is left to the obligations
@@ -2665,6 +2729,17 @@ class Executor:
     def havoc(self, st, s, ls, probe_states):
         names, stores, calls = assigned_names(s.body)
         names |= set(ls.modifies_extra)
+        # ghost statements hooked on an assignment that occurs in this loop body write ghost variables / ghost arrays too
+        for key, srcs in self.c.ghost.get("after_assign", {}).items():
+            base = key.split("<-")[0]
+            if base in names or base in stores:
+                for src in srcs:
+                    try:
+                        gn, gs_, _ = assigned_names(ast.parse(src).body)
+                    except SyntaxError:
+                        continue
+                    names |= gn
+                    stores |= gs_
         appended = set()
         # arrays modified through calls with a modifies clause
         for c in calls:
@@ -2828,6 +2903,11 @@ class Executor:
                     self.oblige(nxt, "decreases", "%s.strict" % tag, d1 < dec0, s, desc="variant decreases")
             elif o.status == "break":
                 o.status = "run"
+                # the cut assertions are facts about the body just executed: they hold (are proved) on leaving it by break as well
+                for j, cexpr in enumerate(ls.cut):
+                    g = self.spec_bool(cexpr, o)
+                    self.oblige(o, "cut", "%s.cut%d@break" % (tag, j), g, s, desc=cexpr)
+                    o.pc.append(g)
                 x_states.append(o)
             else:
                 passthru.append(o)
